@@ -215,6 +215,11 @@ inductive Op where
   | targetExit
   /-- the connection is lost / the session closes: everything in flight is gone, the proxy stops -/
   | cut
+  /-- ONLY A's side goes down (its transport reports an error, its session stops): the proxy
+  stops, its pending callers are dropped, nothing more is sent and no reply can arrive any more —
+  but the frames already on their way (writer channel, byte stream, B's reader and mailboxes)
+  still reach B, which has not noticed anything yet (half-open / asymmetric loss) -/
+  | loseA
   deriving Repr
 
 def Frame.ofOut (sender : Nat) (port : Nat) : Out → Option Frame
@@ -275,6 +280,9 @@ def Net.step (n : Net) : Op → Net
   | .targetExit => { n with targetUp := false, handles := [] }
   | .cut =>
     { n with linkUp := false, fwd := n.fwd.clear, back := n.back.clear, mbox := [], handles := [],
+             px := { n.px with pending := [], cursor := none } }
+  | .loseA =>
+    { n with linkUp := false, back := n.back.clear, mbox := [],
              px := { n.px with pending := [], cursor := none } }
 
 def Net.run (n : Net) (ops : List Op) : Net := ops.foldl Net.step n
@@ -420,6 +428,24 @@ def initialSync (keys : List GKey) (L : Memb) : List Ctl :=
 /-- everything the peer receives about groups: the initial scan of `L0`, then the notifications -/
 def syncStream (keys : List GKey) (L0 : Memb) (evs : List PgEv) : List Ctl :=
   initialSync keys L0 ++ evs.map PgEv.note
+
+/-! ### the initial scan is NOT atomic
+
+`after_authenticated` registers the pg monitors first and then reads `which_scopes_and_groups()`
+and, key by key, `get_scoped_local_members` — while `pg` is a process-global structure that other
+threads keep changing. Every change after the registration is also forwarded as a notification,
+but only after the handler has finished, i.e. after all the `PgJoin`s of the scan. `reads` lists
+the keys the scan looked at, each with the number of local changes (of `evs`, counted from the
+registration) that had happened when it was read. -/
+
+def scanAt (L0 : Memb) (evs : List PgEv) (reads : List (GKey × Nat)) : List Ctl :=
+  reads.filterMap fun r =>
+    let ms := localMembers ((evs.take r.2).foldl Memb.apply L0) r.1
+    if ms.isEmpty then none else some (.pgJoin r.1.1 r.1.2 ms)
+
+/-- what the peer receives when the scan races with local changes -/
+def racingStream (L0 : Memb) (evs : List PgEv) (reads : List (GKey × Nat)) : List Ctl :=
+  scanAt L0 evs reads ++ evs.map PgEv.note
 
 end Remote
 
